@@ -1245,6 +1245,28 @@ def alloc_oracle(case, toks, log=None, items=None):
     return v
 
 
+def alloc_vs_model(c, o, m):
+    """C18, with the ghost-capacity model as the yardstick of "steady state": a call for which the model determines
+    that NO container has to hold more than it has room for (`@0`) but during which the implementation called the
+    allocator is a heap allocation in steady state.  (A different count where the model predicts allocations is a broken
+    correspondence, not by itself a violation.)"""
+    if not c.startswith('A '):
+        return None
+    ot, _ = split_obs(o)
+    mt, _ = split_obs(m)
+    if len(ot) != len(mt):
+        return None
+    for idx, (a, b) in enumerate(zip(ot, mt)):
+        ma = _ALLOC.search(b)
+        ia = _ALLOC.search(a)
+        if ma and ia and ma.group(1) == '0' and ia.group(1) not in ('0', '?'):
+            if strip_growth(a) != strip_growth(b):
+                continue      # the call itself behaved differently: judged elsewhere
+            return 'op %d (%s): %s allocator calls although no container had to hold more than it had room for ' \
+                   '(ghost capacities: 0 allocations); observation %s' % (idx, c.split(' ')[8].split(',')[idx] if idx < len(c.split(' ')[8].split(',')) else '?', ia.group(1), a[:60])
+    return None
+
+
 def json_oracle(case, toks):
     """every serialised value deserialises to an equal one (the harness compares all records)"""
     v = Verdict()
